@@ -77,14 +77,15 @@ func sqlRowsLeft(st *rig.Stack) int {
 
 // faultCtl drives the decorator: counts writes, injects one fault at write index K.
 type faultCtl struct {
-	writes   int // writes seen so far (global index)
-	inAdd    int // writes seen within the current Add
-	K        int // -1: no fault
-	Kind     string
-	fired    bool
-	firedOp  string // e.g. UpdateState#1
-	realKill bool   // SIGKILL the own process instead of panicking
-	opsInAdd []string
+	writes    int // writes seen so far (global index)
+	inAdd     int // writes seen within the current Add
+	K         int // -1: no fault
+	Kind      string
+	fired     bool
+	firedOp   string // e.g. UpdateState#1
+	realKill  bool   // SIGKILL the own process instead of panicking
+	childSent bool   // error-then-carry-on: the block on top of the earlier tip has been delivered
+	opsInAdd  []string
 }
 
 func (f *faultCtl) hooks() *deco.Hooks {
@@ -211,7 +212,22 @@ type env struct {
 func ingest(st *rig.Stack, hist gen.History, f *faultCtl) (acked []string, crashed bool, stoppedAt int, lastRes rig.AddResult) {
 	for i, h := range hist.Hdrs {
 		f.inAdd = 0
+		var tipBefore *refmodel.Hash
+		if f.Kind == errContinue && !f.fired {
+			if t := st.Svc.Headers.GetTip(); t != nil {
+				th := refmodel.Hash(t.Hash)
+				tipBefore = &th
+			}
+		}
 		res := st.Add(h)
+		if f.Kind == errContinue && f.fired && tipBefore != nil && !f.childSent {
+			// the submission that just failed may have been a reorganisation: the very next thing a peer delivers is a
+			// block on top of what was the tip before it
+			f.childSent = true
+			c := refmodel.Hdr{Version: 0x20000000, Prev: *tipBefore, Bits: gen.BitsNormal, Time: 1700000000 + uint32(i), Nonce: uint32(0xC0500000 + i)}
+			c.Merkle[0], c.Merkle[1] = 0xC5, byte(i)
+			_ = st.Add(c)
+		}
 		lastRes = res
 		if res.Panic != nil {
 			if _, ok := res.Panic.(deco.Crash); ok {
